@@ -60,6 +60,7 @@ let parse_uop (t : string list) : uop =
   | ["udp_wait"; s; h] -> UUdpWaitRead (zi s, zi h)
   | ["udp_wait_write"; s; h] -> UUdpWaitWrite (zi s, zi h)
   | ["udp_df"; s; b] -> UUdpSetDF (zi s, b1 b)
+  | ["udp_pmtu"; s; b] -> UUdpSetDF (zi s, b1 b)      (* the Linux spelling of the same switch *)
   | ["udp_lep"; s] -> UUdpLocalEp (zi s)
   | ["tcp_new"; s; n] -> UTcpNew (zi s, zi n)
   | ["acc_new"; s; n] -> UAccNew (zi s, zi n)
